@@ -10,11 +10,11 @@ ID = "C02"
 LEVEL = "exploration"
 NEEDS = {"lib": ["dev", "release"]}
 RULE = ("mnemonic.seed events compared with hashlib PBKDF2-HMAC-SHA512(canonical phrase, NFKD('mnemonic'+pw), 2048); phrases of "
-        "all five lengths in canonical and hostile ASCII-whitespace layouts; passphrases: empty, ASCII, long, NFKD-equivalent "
+        "all five lengths in canonical and hostile ASCII-whitespace layouts; passphrases: empty, ASCII, long (up to 1 MiB, pairs differing in the last byte, around 2^16 bytes before and after normalisation), NFKD-equivalent "
         "pairs, compatibility characters, Hangul, astral plane, combining-mark reorderings, random assigned code points "
         "(Unicode 14 repertoire). distinct = distinct (phrase text, passphrase, profile); non-trivial = 64-byte seed compared")
 REQUIRED = (["len-%d" % n for n in bip39.LEGAL_COUNTS] + ["pw-empty", "pw-ascii", "pw-long-salt>128B", "nfkd-changes-salt", "pw-astral",
-            "layout-messy", "phrase>128B", "phrase<=128B", "nfkd-pair-equal", "pw-hangul", "pw-combining-reorder", "pw-whitespace-edge", "layout-unicode-whitespace", "pw-combining-run>30", "pw-combining-run<=30"])
+            "layout-messy", "phrase>128B", "phrase<=128B", "nfkd-pair-equal", "pw-hangul", "pw-combining-reorder", "pw-whitespace-edge", "layout-unicode-whitespace", "pw-combining-run>30", "pw-combining-run<=30", "pw-huge>=64KiB", "pw-huge-after-nfkd"])
 ASSUMPTIONS = ["passphrase code points are restricted to those assigned in Unicode 14 (Python's table); the Unicode stability "
                "policy guarantees the crate's newer table normalises them identically"]
 
@@ -176,6 +176,18 @@ def gen(shard, rng, tier):
     # Small pools make inputs collide inside one server process: the same phrase with another passphrase, the same
     # passphrase with another phrase. A result that depends on an earlier call (a stale cache) then shows as a mismatch.
     pool_words, pool_pw = [], []
+    if shard.get("idx") == 0:
+        # very long passphrases: every byte of the salt counts, also past 2^16 bytes, and also when the length is only
+        # reached after normalisation (U+FDFA expands to 18 code points / 33 bytes)
+        for n in (4096, 65519, 65520, 65527, 65528, 65529, 65535, 65536, 65537, 70000, 131072, 131073, 1 << 20):
+            words = _phrase(rng)
+            body = "".join(chr(rng.randint(0x21, 0x7e)) for _ in range(n - 1))
+            for pw in (body + "A", body + "B"):
+                yield from both(lib_case("seed", {"op": "mnemonic.seed", "phrase": " ".join(words), "password": pw}, {"cls": "seed", "tags": ["pw-huge>=64KiB" if n >= 65520 else "pw-4KiB"]}))
+        for n in (3640, 3641, 1986, 7300):
+            words = _phrase(rng)
+            for tail in ("x", "y"):
+                yield from both(lib_case("seed", {"op": "mnemonic.seed", "phrase": " ".join(words), "password": "\ufdfa" * n + tail}, {"cls": "seed", "tags": ["pw-huge-after-nfkd"]}))
     for i in range(shard["count"]):
         if pool_words and rng.random() < 0.3:
             words = rng.choice(pool_words)
